@@ -73,6 +73,20 @@ func verifyFunction(w *World, fn *ssa.Function) (rep *FnReport) {
 	st := &State{pc: "true", locals: map[*ssa.Alloc][]string{}, regs: map[ssa.Value]*Val{}, heap: map[string]string{}}
 	e.assume(st, "(>= "+e.heapGet(st, e.keyAlloc())+" 0)")
 	e.assumeTrackedWF(st)
+	if len(w.spec.RawAxioms) > 0 {
+		// functions of packages with sequence specs: the sequence view is set up before any append executes
+		pkgPath := ""
+		tp := fn
+		for tp.Parent() != nil {
+			tp = tp.Parent()
+		}
+		if tp.Pkg != nil {
+			pkgPath = tp.Pkg.Pkg.Path()
+		}
+		if w.spec.Options[pkgPath]["seq"] == "string" {
+			e.seqSetup()
+		}
+	}
 	args, binds := fx.genericArgs(st)
 	for i, p := range fn.Params {
 		st.regs[p] = args[i]
